@@ -71,6 +71,10 @@ pub fn run(ctx: &Ctx, rep: &mut Report) {
     for uni in ctx.my_universes(total) {
         let mut rng = ctx.rng_for(uni);
         rep.begin_universe(uni);
+        if uni == 0 {
+            // once per run: the history recorded under the pinned version, continued by the current code
+            crate::legacy::run(rep, "C12");
+        }
         let mut u = U::with_ledger(1000 + rng.below(1000) as u32, 1_000_000);
         // cast: 0..4 plain accounts, 5 = initial owner, 6 = designated minter, 7.. later owners
         let mut cast: Vec<Address> = (0..7).map(|_| u.principal()).collect();
